@@ -420,6 +420,9 @@ let judge_listener ins outs : verdict =
                        let rv = (v = "v1") in
                        if rv && not mv && int_of_nat c.c_est <> int_of_nat (!l).l_modified then
                          raise (Fail ("applies_to_later_connections", "a configuration accepted later is in force on an older connection"));
+                       if rv <> mv && !last_rejected then
+                         raise (Fail ("reject_keeps_active", Printf.sprintf "after a rejected configuration a connection accepted earlier is %s for its shape (model: %s)"
+                                        (if rv then "valid" else "no longer valid") (if mv then "valid" else "not valid")));
                        if rv <> mv then raise (Dis (Printf.sprintf "validity want=%b got=%b" mv rv));
                        if 2 * ios nloc <> iz c.c_nbuckets then raise (Dis "local-bucket-count");
                        if ios wcap <> iz (conn_default_cap !l c) then raise (Dis "default-capacity");
@@ -512,11 +515,14 @@ let judge_integration ins outs : verdict =
 
 let judge_keepalive ins outs : verdict =
   if List.mem "PANIC" outs then raise (Fail ("no_panic", "the code under test panicked"));
-  let (cfgt, reqs) = split_bar ins in
+  let (cfgt, items) = split_bar ins in
+  let (mode, items) = match items with
+    | m :: r when starts "mode:" m -> (String.sub m 5 (String.length m - 5), r)
+    | _ -> ("plain", items) in
   let (code, rx, outs) = match outs with
     | s :: r :: rest when starts "st" s && starts "rx" r -> (ios (String.sub s 2 (String.length s - 2)), tl1 (tl1 r), rest)
     | _ -> if List.mem "listen-failed" outs then raise Exit else raise (Dis "keepalive-out-shape") in
-  if List.mem "dial-failed" outs then raise Exit;
+  if List.mem "dial-failed" outs || List.mem "listen-failed" outs then raise Exit;
   let (cfgo, regtoks) = parse_cfg cfgt rx in
   let validated = match cfgo with Some c -> validate c | None -> None in
   (match validated, code with
@@ -527,19 +533,60 @@ let judge_keepalive ins outs : verdict =
   let lat = match cfgo, validated with Some { cf_defaults = Some ((_, _), l); _ }, Some _ -> l | _ -> Z0 in
   let shared = ref (List.map (fun (k, sh) -> (k, sh.sh_acts)) active) in
   let prev = ref (fst (open_ctx true [] [] false Z0 Z0 (Some lat) O)) in
-  let nresp = ref 0 and acted = ref false and dead = ref false in
-  let rec go reqs outs =
-    match reqs, outs with
-    | [], [m] ->
+  let nresp = ref 0 and acted = ref false and dead = ref false and tunnel = ref false in
+  (* a response / transfer that matches no shape: every byte, never cut *)
+  let unshaped what data delivered cut el =
+    if cut || delivered <> data then
+      raise (Fail ("only_matching", Printf.sprintf "%s %d (mode %s) matches no shape but was cut or altered: %d of %d bytes"
+                     what !nresp mode (List.length delivered) (List.length data)));
+    let (s, _) = respond !prev true [] [] false Z0 Z0 in
+    let ((s', evs), _) = write (fun _ -> huge) s data in
+    if el < delays_before_last_byte evs then raise (Fail ("halt_delay_total", "latency not observed"));
+    prev := s' in
+  let outs = if mode = "mitm" then
+      (match outs with
+       | "c200" :: "handshake-failed" :: _ -> raise (Dis "tls-handshake-with-the-proxy-failed")
+       | "c200" :: rest -> rest
+       | c :: _ -> raise (Fail ("only_matching", "CONNECT on a fresh shaped connection answered " ^ c))
+       | [] -> raise (Dis "keepalive-out-length"))
+    else outs in
+  let rec go items outs =
+    match items, outs with
+    | [], [gl; m] when starts "gl" gl ->
+        let left = ios (tl1 (tl1 gl)) in
+        if left > 0 then
+          raise (Fail ("close_releases", Printf.sprintf "%d goroutines created for the client connection (mode %s) are still alive after it was closed" left mode));
         let want = pr_active active (fun k -> List.assoc_opt k !shared) in
         if want <> m then raise (Dis ("final-actions want=" ^ want ^ " got=" ^ m))
-    | q :: reqs', "skip" :: outs' ->
-        if not !dead then raise (Dis "request-skipped-on-a-live-connection");
-        go reqs' outs'
-    | q :: reqs', _ :: _ :: _ :: "cut" :: _ :: _ :: "x" :: outs' when !dead ->
+    | _ :: items', "skip" :: outs' ->
+        if not !dead then raise (Dis "item-skipped-on-a-live-connection");
+        go items' outs'
+    | q :: items', _ :: _ :: _ :: "cut" :: _ :: _ :: "x" :: outs' when !dead && q.[0] = 'q' ->
         (* the proxy had closed the connection after the previous response *)
-        go reqs' outs'
-    | q :: reqs', m :: hs :: hl :: state :: el :: body :: got :: outs' ->
+        go items' outs'
+    | t :: _, c :: outs' when t.[0] = 't' && not !tunnel && String.length c > 0 && c.[0] = 'c' ->
+        (* the blind CONNECT and its 200 response *)
+        if !dead then (match outs' with "skip" :: o2 -> go (List.tl items) o2 | _ -> raise (Dis "connect-on-dead-connection"))
+        else begin
+          if c <> "c200" then
+            raise (Fail ("only_matching", "CONNECT response (matches no shape) was cut or refused: " ^ c));
+          tunnel := true;
+          (* its head went through the connection as an unshaped response *)
+          let (s, _) = respond !prev true [] [] false Z0 Z0 in
+          let ((s', _), _) = write (fun _ -> huge) s ['H'] in   (* consumes the latency-once *)
+          prev := s';
+          go items outs'
+        end
+    | t :: items', state :: el :: body :: got :: outs' when t.[0] = 't' && (state = "tok" || state = "tcut") ->
+        if !dead then begin
+          if got <> "x" then raise (Dis "transfer-after-close");
+          go items' outs'
+        end else begin
+          incr nresp;
+          unshaped "tunnel transfer" (chars_of_hex (tl1 body)) (chars_of_hex got) (state = "tcut") (ios (tl1 (tl1 el)));
+          go items' outs'
+        end
+    | q :: items', m :: hs :: hl :: state :: el :: body :: got :: outs' when q.[0] = 'q' ->
         if !dead then raise (Dis "response-after-close");
         let rs = match split ':' q with [_; _; rs; _; _] -> ios rs | _ -> raise (Dis "bad-q") in
         let mbits = tl1 m in
@@ -550,10 +597,9 @@ let judge_keepalive ins outs : verdict =
         let body = chars_of_hex (tl1 body) in
         let el = ios (tl1 (tl1 el)) in
         incr nresp;
-        if hl < 0 then begin
-          (* nothing or not even a full head arrived: only legitimate when a close fires at once *)
-          if state <> "cut" then raise (Fail ("bytes_prefix", "no response head delivered"))
-        end;
+        if hl < 0 && matching = [] then
+          raise (Fail ("only_matching", Printf.sprintf "response %d (mode %s) matches no shape but its head was not delivered" !nresp mode));
+        if hl < 0 && state <> "cut" then raise (Fail ("bytes_prefix", "no response head delivered"));
         let head = if hl >= 0 then List.filteri (fun i _ -> i < hl) delivered else delivered in
         let data = head @ body in
         let short = List.length delivered < List.length data in
@@ -563,26 +609,20 @@ let judge_keepalive ins outs : verdict =
         if hl >= 0 && ios (tl1 (tl1 hs)) <> (if rs >= 0 then 206 else 200) then raise (Dis "origin-status");
         let rs' = zi (if rs >= 0 then rs else 0) in
         (match matching with
-         | [] ->
-             if short || state = "cut" then
-               raise (Fail ("only_matching", Printf.sprintf "response %d matches no shape but was cut after %d of %d bytes" !nresp (List.length delivered) (List.length data)));
-             let (s, _) = respond !prev true [] [] false rs' (zi hl) in
-             let ((s', evs), _) = write (fun _ -> huge) s data in
-             if el < delays_before_last_byte evs then raise (Fail ("halt_delay_total", "latency not observed"));
-             prev := s'
+         | [] -> unshaped "response" data delivered (short || state = "cut") el
          | [rg] when hl >= 0 ->
              let rgc = chars_of_hex rg in
              let sh = List.assoc rgc active in
              let acts = List.assoc rgc !shared in
              if not (ok_close acts rs' (zi hl) data delivered short) then
-               raise (Fail ("close_at_k", Printf.sprintf "response %d: rs=%d hl=%d written=%d delivered=%d first_close=%s"
-                              !nresp rs hl (List.length data) (List.length delivered)
+               raise (Fail ("close_at_k", Printf.sprintf "response %d (mode %s): rs=%d hl=%d written=%d delivered=%d first_close=%s"
+                              !nresp mode rs hl (List.length data) (List.length delivered)
                               (match first_close acts rs' with Some k -> string_of_int (iz k) | None -> "-")));
              let (s, evs0) = respond !prev true acts sh.sh_thr true rs' (zi hl) in
              let ((s', evs), r) = write (fun _ -> huge) s data in
              let total = delays_before_last_byte evs in
              if el < total then
-               raise (Fail ("halt_delay_total", Printf.sprintf "response %d took %dus, configured halts and latency add up to %dus" !nresp el total));
+               raise (Fail ("halt_delay_total", Printf.sprintf "response %d (mode %s) took %dus, configured halts and latency add up to %dus" !nresp mode el total));
              if emitted evs <> delivered then raise (Dis "delivered-bytes-differ-from-model");
              let closed = (match r with RClosed _ -> true | _ -> false) in
              (* a close exactly at the end of the body: complete response, then the proxy closes *)
@@ -593,10 +633,10 @@ let judge_keepalive ins outs : verdict =
              prev := s'
          | _ -> raise Exit);
         if state = "cut" then dead := true;
-        go reqs' outs'
+        go items' outs'
     | _ -> raise (Dis "keepalive-out-length") in
-  (try go reqs outs with Exit -> ());
-  VOk (!nresp >= 2 && !acted)
+  (try go items outs with Exit -> ());
+  VOk (!nresp >= 2 && (!acted || mode <> "plain"))
 
 (* ------------------------------ R ---------------------------------- *)
 
